@@ -16,7 +16,9 @@
 (*              opening handle) | "ok"                                             *)
 (*      delim : "none" (binary) or a delimiter id       hdr : user-header id       *)
 (*      size  : the stored row count (the SIZE line)    rows: the stored rows      *)
-(* handles[h] = [open, path, mode, fresh, delim]   write-mode handles only;        *)
+(* handles[h] = [open, path, mode, fresh, delim]   one handle *object* per id: it   *)
+(*              can be opened again (Open on an open or closed object) on any path  *)
+(*              in any mode, and nothing of its earlier use may matter;             *)
 (*      fresh : nothing written through it yet and it is creating (the first write *)
 (*              writes the header).                                                *)
 (* res        = outcome of the last action (what the call returned / raised).      *)
@@ -52,6 +54,7 @@ VARIABLES files, handles, res
 rsvars == <<files, handles, res>>
 
 WriteModes == {"w", "w+", "r+"}          \* the modes the library documents for writing
+AllModes   == WriteModes \cup {"r"}      \* a handle object can also be (re-)opened for reading only
 NoDescr    == <<"none", "na">>
 
 Missing == [st |-> "missing", delim |-> "none", hdr |-> "none", descr |-> NoDescr, size |-> 0, rows |-> <<>>]
@@ -80,7 +83,20 @@ CountRes(o, n) == [NoRes(o) EXCEPT !.size = n]
 DataRes(o, f) == [op |-> o, err |-> "none", descr |-> f.descr, rows |-> f.rows, hdr |-> f.hdr, size |-> f.size, delim |-> f.delim]
 HdrRes(o, f)  == [DataRes(o, f) EXCEPT !.rows = <<>>]
 
+\* some handle (of any mode) is open on p / some handle other than h is
 WriterOn(p)  == \E h \in Handles : handles[h].open /\ handles[h].path = p
+OtherOn(h, p) == \E g \in Handles \ {h} : handles[g].open /\ handles[g].path = p
+
+\* ---- what a read through a handle may ask for (the statement's subject is the whole table; the partial reads
+\* matter because of what they do to the handle before the next write) ------------------------------------------
+ReadSels == {"all", "first", "head", "cols"}   \* everything | rows=[0] | the slice [0:2] | two columns of row 0
+SelRows(sel, rows) ==
+    CASE sel = "all"  -> rows
+      [] sel = "head" -> SubSeq(rows, 1, IF Len(rows) < 2 THEN Len(rows) ELSE 2)
+      [] OTHER        -> SubSeq(rows, 1, 1)
+ColsDescr == <<"cols", "na">>                   \* the fields of a column-subset result are not the file's
+SelRes(o, f, sel) == [op |-> o, err |-> "none", descr |-> IF sel = "cols" THEN ColsDescr ELSE f.descr,
+                      rows |-> SelRows(sel, f.rows), hdr |-> f.hdr, size |-> f.size, delim |-> f.delim]
 
 \* ---- the outcomes of appending chunk c (optionally with a header argument) to an existing file
 Appended(f, c) == [f EXCEPT !.rows = @ \o c.rows, !.size = @ + Len(c.rows)]
@@ -95,30 +111,35 @@ RSInit == /\ files = [p \in Paths |-> Missing]
           /\ res = NoRes("init")
 
 \* ---- handle actions -----------------------------------------------------------------
-\* SFile(path, mode=m, delim=dl)
+\* SFile(path, mode=m, delim=dl) on a new object, or sf.open(path, mode=m, delim=dl) on an existing one - closed or
+\* still open on another (or the same) path: the object closes what it has open first.  Whatever the object was used
+\* for before has no influence (no handle field survives).  After a rejected (re-)open the object is closed.
 Open(h, p, m, dl) ==
-    /\ ~handles[h].open /\ ~WriterOn(p) /\ m \in WriteModes
+    /\ ~OtherOn(h, p) /\ m \in AllModes
     /\ LET creating(em) == [open |-> TRUE, path |-> p, mode |-> em, fresh |-> TRUE, delim |-> dl]
            Creates(em) == /\ files' = [files EXCEPT ![p] = Blank]
                           /\ handles' = [handles EXCEPT ![h] = creating(em)]
                           /\ res' = NoRes("open")
            Rejects     == /\ files' \in {files, [files EXCEPT ![p] = Blank]}   \* the attempt may have truncated / created p
                           /\ res' = RejRes("open")
-                          /\ UNCHANGED handles
+                          /\ handles' = [handles EXCEPT ![h] = Closed]
+           Attaches    == /\ handles' = [handles EXCEPT ![h] = [open |-> TRUE, path |-> p, mode |-> m, fresh |-> FALSE,
+                                                                delim |-> files[p].delim]]
+                          /\ res' = CountRes("open", files[p].size)
+                          /\ UNCHANGED files
        IN
        CASE m = "w"  -> Creates("w")
          [] m = "w+" -> Creates("w+") \/ Rejects
-         [] m = "r+" ->
-              IF files[p].st = "ok"
-              THEN /\ handles' = [handles EXCEPT ![h] = [open |-> TRUE, path |-> p, mode |-> m, fresh |-> FALSE,
-                                                         delim |-> files[p].delim]]
-                   /\ res' = CountRes("open", files[p].size)
-                   /\ UNCHANGED files
-              ELSE Creates("w") \/ Rejects                       \* "changed to write mode": a write-only handle
+         [] m = "r+" -> IF files[p].st = "ok" THEN Attaches
+                        ELSE Creates("w") \/ Rejects               \* "changed to write mode": a write-only handle
+         [] m = "r"  -> IF files[p].st = "ok" THEN Attaches
+                        ELSE /\ res' = AnyRes("open")              \* opening something that is not a record file for reading
+                             /\ handles' = [handles EXCEPT ![h] = Closed]
+                             /\ UNCHANGED files
 
 \* sf.write(chunk, header=hd) through an open handle
 HWrite(h, c, hd) ==
-    /\ handles[h].open
+    /\ handles[h].open /\ handles[h].mode # "r"
     /\ LET p == handles[h].path IN
        IF handles[h].fresh
        THEN /\ files' = [files EXCEPT ![p] = NewFile(c, hd, handles[h].delim)]
@@ -129,12 +150,15 @@ HWrite(h, c, hd) ==
                  /\ res' = IF o.err = "none" THEN CountRes("append", o.file.size) ELSE RejRes("append")
             /\ UNCHANGED handles
 
-\* sf.read() / sf[:] through the handle that wrote
-HRead(h) ==
-    /\ handles[h].open
+\* sf.read(...) / sf[...] through an open handle: a reader ('r') must return what was asked of the file; a handle
+\* opened for reading and writing may reject, but what it returns must be right; a write-only handle is unconstrained
+HReadSel(h, sel) ==
+    /\ handles[h].open /\ sel \in ReadSels
     /\ res' = IF handles[h].mode = "w" \/ handles[h].fresh THEN AnyRes("read")
-              ELSE MayRejRes(DataRes("read", files[handles[h].path]))
+              ELSE IF handles[h].mode = "r" THEN SelRes("read", files[handles[h].path], sel)
+              ELSE MayRejRes(SelRes("read", files[handles[h].path], sel))
     /\ UNCHANGED <<files, handles>>
+HRead(h) == HReadSel(h, "all")
 
 HClose(h) ==
     /\ handles[h].open
@@ -190,7 +214,7 @@ FileOK(f) == /\ f.st \in {"missing", "blank", "ok"}
 SizeInv == \A p \in Paths : FileOK(files[p])
 
 HandleInv == \A h \in Handles :
-    /\ handles[h].open => handles[h].path \in Paths /\ handles[h].mode \in WriteModes
+    /\ handles[h].open => handles[h].path \in Paths /\ handles[h].mode \in AllModes
     /\ ~handles[h].open => handles[h] = Closed
     /\ (handles[h].open /\ handles[h].fresh) => files[handles[h].path].st = "blank"
     /\ (handles[h].open /\ ~handles[h].fresh) => files[handles[h].path].st = "ok"
@@ -198,9 +222,9 @@ HandleInv == \A h \in Handles :
 
 \* a read that is constrained returns exactly the stored table, header and count
 ReadInv == (res.op \in {"read", "readhdr"} /\ Returned(res)) =>
-              \E p \in Paths : /\ files[p].st = "ok" /\ res.descr = files[p].descr /\ res.hdr = files[p].hdr
+              \E p \in Paths : /\ files[p].st = "ok" /\ res.descr \in {files[p].descr, ColsDescr} /\ res.hdr = files[p].hdr
                                /\ res.size = files[p].size /\ res.delim = files[p].delim
-                               /\ (res.op = "read" => res.rows = files[p].rows)
+                               /\ (res.op = "read" => \E sel \in ReadSels : res.rows = SelRows(sel, files[p].rows))
 
 \* ---- action properties ---------------------------------------------------------------------
 \* what one step may do to one file
